@@ -221,6 +221,24 @@ func C06(c *Ctx) {
 			if f.Signature.Results().Len() == 1 && f.Signature.Results().At(0).Type().String() == "bool" && len(typeSwitchCases(c, f)) > 0 {
 				nd++
 				detectorExistential(c, f, m)
+				continue
+			}
+			// a pass over the messages that hands back "is this a module transaction" among other results (a tally and a flag)
+			if res := f.Signature.Results(); res.Len() > 1 && len(typeSwitchCases(c, f)) > 0 {
+				getsMsgs := false
+				for _, b := range f.Blocks {
+					for _, in := range b.Instrs {
+						if call, ok := in.(ssa.CallInstruction); ok && methodNameOf(call) == "GetMsgs" {
+							getsMsgs = true
+						}
+					}
+				}
+				for i := 0; getsMsgs && i < res.Len(); i++ {
+					if res.At(i).Type().String() == "bool" {
+						nd++
+						detectorMonotone(c, f, m, i)
+					}
+				}
 			}
 		}
 	}
